@@ -41,6 +41,9 @@ Local Open Scope string_scope.
 Local Open Scope list_scope.
 
 Definition maxv : nat := 25.        (* FiniteFixedPointTyper(max_values_before_fail=25) *)
+(* the typer's limit is on the number of distinct VALUES (it de-duplicates after every substituted variable): the sum
+   of two six-valued variables has 36 valuations but 11 values.  Valuations are capped separately (cost of the analysis) *)
+Definition maxenv : nat := 100.
 Definition fp_iterations : nat := 100. (* settings.type_fp_iterations *)
 
 (* ---- all assignments of a block, at any depth, in textual order ---- *)
@@ -81,7 +84,7 @@ Definition small (q : Qc) : bool :=
 Definition expr_vals (T : tenv) (e : expr) : option (list Qc) :=
   match valuations all_vars T (nodup string_dec (vars_of e)) with
   | Some envs =>
-      if Nat.leb (List.length envs) maxv then
+      if Nat.leb (List.length envs) maxenv then
         let vs := dedup (map (fun env => eval e (env_state env)) envs) in
         if forallb small vs then Some vs else None
       else None
